@@ -490,3 +490,236 @@ Proof.
   wsimpl. exists f0. split; [exact Hf0|]. cbv zeta. rewrite <- Hf.
   exact (segment_as_fresh h2 (set_extensions xs w1) Hd).
 Qed.
+
+(* ------------------------------------------------------------------ histories from the constructors *)
+Section Run.
+Variables (client : bool) (op : N) (comp : bool).
+
+(* one operation of a C06 history keeps the running state, never stops the run *)
+Lemma run_op_C o w : Cst client op comp w -> c06_op o -> 28 + 4 * (len (w_buf w) + op_cost o) <= max_int ->
+  exists o1 w1, run_op o w = (o1, w1, false) /\ Cst client op comp w1 /\
+    len (w_buf w1) <= len (w_buf w) + op_cost o.
+Proof.
+  intros Hc Ho Hb. destruct o as [p|data sizes|p| | |n| |xs|st o|o]; cbn [c06_op op_cost run_op] in *; try contradiction.
+  - destruct (write_C client op comp p w Hc Ho ltac:(lia)) as (w1 & fs & Hw & Hs & _).
+    rewrite Hw. eexists _, _. split; [reflexivity|]. split; [apply Hs|]. exact (Step_buf_len _ _ _ _ _ _ _ Hs).
+  - destruct (read_from_C client op comp data sizes w Hc Ho ltac:(lia)) as (w1 & s' & fs & Hw & Hs & _).
+    rewrite Hw. eexists _, _. split; [reflexivity|]. split; [apply Hs|]. exact (Step_buf_len _ _ _ _ _ _ _ Hs).
+  - destruct Ho as [Hp Hl]. destruct (w_buf w) as [|b0 r0] eqn:Eb.
+    + destruct (Step_write_through client op comp p w Hc Eb Hp Hl) as (Hw & Hs & _).
+      rewrite Hw. eexists _, _. split; [reflexivity|]. split; [apply Hs|].
+      unfold sent2, wt_result. wsimpl. rewrite Eb. lia.
+    + rewrite (write_through_notempty p w (c_err _ _ _ w Hc)) by (rewrite Eb; discriminate).
+      eexists _, _. split; [reflexivity|]. split; [assumption|]. rewrite Eb. lia.
+  - destruct (w_buf w) as [|b0 r0] eqn:Eb.
+    + unfold flush_fragment, w_n. rewrite Eb, (c_err _ _ _ w Hc). cbn [len length N.of_nat N.eqb orb].
+      eexists _, _. split; [reflexivity|]. split; [assumption|]. rewrite Eb, len_nil. lia.
+    + destruct (Step_flush_fragment client op comp w Hc) as [Hw Hs]; [rewrite Eb; discriminate|].
+      rewrite Hw. eexists _, _. split; [reflexivity|]. split; [apply Hs|]. wsimpl. rewrite len_nil. lia.
+  - destruct (w_dirty w) eqn:Ed; [|destruct (w_buf w) as [|b0 r0] eqn:Eb].
+    + rewrite (flush_C client op comp w Hc (or_introl Ed)).
+      eexists _, _. split; [reflexivity|]. split; [apply Cst_flushed; assumption|]. wsimpl. rewrite len_nil. lia.
+    + rewrite (flush_nothing w Ed Eb). eexists _, _. split; [reflexivity|]. split; [assumption|]. rewrite Eb, len_nil. lia.
+    + rewrite (flush_C client op comp w Hc) by (right; rewrite Eb; discriminate).
+      eexists _, _. split; [reflexivity|]. split; [apply Cst_flushed; assumption|]. wsimpl. rewrite len_nil. lia.
+  - destruct (Step_grow client op comp n w Hc ltac:(lia)) as (w1 & Hg & Hc1 & _ & _ & Hb1 & _).
+    rewrite Hg. eexists _, _. split; [reflexivity|]. split; [assumption|]. rewrite Hb1. lia.
+  - eexists _, _. split; [reflexivity|]. split; [|wsimpl; lia].
+    destruct Hc as [B1 B2 B3 B4 B5 B6 B7]. constructor; wsimpl; try assumption.
+    destruct B1 as [I1 I2 I3 I4 I5]. constructor; assumption.
+Qed.
+
+(* a C06 history runs to its end; a longer history continues from its final state *)
+Lemma run_wops_app_C : forall h1 rest w, Cst client op comp w -> Forall c06_op h1 ->
+  28 + 4 * (len (w_buf w) + ops_cost h1) <= max_int ->
+  run_wops (h1 ++ rest) w =
+    (fst (run_wops h1 w) ++ fst (run_wops rest (snd (run_wops h1 w))), snd (run_wops rest (snd (run_wops h1 w)))) /\
+  Cst client op comp (snd (run_wops h1 w)) /\ length (fst (run_wops h1 w)) = length h1.
+Proof.
+  induction h1 as [|o h1 IH]; intros rest w Hc Hops Hb.
+  - cbn [app run_wops fst snd length]. destruct (run_wops rest w). auto.
+  - inversion Hops as [|? ? Ho Hr]; subst. cbn [ops_cost] in Hb.
+    destruct (run_op_C o w Hc Ho ltac:(lia)) as (o1 & w1 & Hrun & Hc1 & Hl).
+    destruct (IH rest w1 Hc1 Hr ltac:(lia)) as (E & Hc2 & Hlen).
+    cbn [app]. rewrite !run_wops_cons, Hrun, E.
+    destruct (run_wops h1 w1) as [os1 w2]. cbn [fst snd] in *.
+    destruct (run_wops rest w2) as [os2 w3]. cbn [fst snd app length]. auto.
+Qed.
+End Run.
+
+(* the three constructors are NewWriterBuffer over some length *)
+Lemma constructors_nwb d state op n masks w :
+  (new_writer_buffer d state op n masks = inr w \/ new_writer_buffer_size d state op n masks = inr w \/
+   new_writer_size d state op n masks = inr w) -> n + 14 <= max_int ->
+  exists rawlen, rawlen <= max_int /\ new_writer_buffer d state op rawlen masks = inr w.
+Proof.
+  intros H Hn.
+  assert (Hsz: forall k, k <= max_int -> (if k <=? 2 then default_write_buffer else k) <= max_int).
+  { intros k Hk. destruct (k <=? 2); [vm_compute; discriminate|assumption]. }
+  assert (Hhs: (if 0 <? n then n + w_header_size state n else n) <= max_int).
+  { destruct (0 <? n); [|lia]. unfold w_header_size. pose proof (mask_len_cases state).
+    destruct (n <? 126); [lia|]. destruct (n <=? 65535); lia. }
+  destruct H as [H|[H|H]].
+  - exists n. split; [lia|assumption].
+  - eexists. split; [|exact H]. apply Hsz. lia.
+  - eexists. split; [|exact H]. apply Hsz. assumption.
+Qed.
+
+Lemma constructed_Cst state op rawlen masks exts comp w00 :
+  new_writer_buffer dnil state op rawlen masks = inr w00 -> rawlen <= max_int -> op < 16 ->
+  Forall wf_key masks -> exts_comp exts comp ->
+  Cst (client_side state) op comp (set_extensions exts w00) /\ w_buf (set_extensions exts w00) = [].
+Proof.
+  intros Hn Hr Ho Hm Hx.
+  pose proof (new_writer_buffer_inv _ _ _ _ _ _ Hr Hn) as [A1 A2 A3 A4 A5].
+  destruct (new_writer_buffer_fresh _ _ _ _ _ _ Hn) as (E1 & E2 & E3 & E4 & E5 & E6 & E7 & E8 & E9 & E10).
+  split; [|wsimpl; assumption].
+  constructor; wsimpl; try assumption.
+  - constructor; assumption.
+  - unfold wf_writer, masks_ok. wsimpl. rewrite E3, E6, E10. split; [assumption|]. split; [constructor|assumption].
+  - rewrite E1. reflexivity.
+  - rewrite E2. reflexivity.
+Qed.
+
+Lemma firstn_exact {A} (l r : list A) n : length l = n -> firstn n (l ++ r) = l.
+Proof. intros <-. rewrite firstn_app, Nat.sub_diag, firstn_all. cbn. apply app_nil_r. Qed.
+Lemma skipn_exact {A} (l r : list A) x n : length l = n -> skipn (S n) (l ++ x :: r) = r.
+Proof.
+  intros <-. rewrite skipn_app. rewrite skipn_all2 by lia.
+  replace (S (length l) - length l)%nat with 1%nat by lia. reflexivity.
+Qed.
+
+(* the run of h1 ++ X :: h2 where X = ResetOp / SetExtensions: observations and final state *)
+Lemma run_split client op comp h1 x h2 w0 wx :
+  Cst client op comp w0 -> w_buf w0 = [] -> Forall c06_op h1 -> 28 + 4 * ops_cost h1 <= max_int ->
+  (forall w, run_op x w = (observe 0 None None (wx w), wx w, false)) ->
+  let w1 := snd (run_wops h1 w0) in
+  let r := run_wops (h1 ++ x :: h2) w0 in
+  Cst client op comp w1 /\
+  firstn (length h1) (fst r) = fst (run_wops h1 w0) /\
+  skipn (S (length h1)) (fst r) = fst (run_wops h2 (wx w1)) /\
+  snd r = snd (run_wops h2 (wx w1)).
+Proof.
+  intros Hc Hb0 Hops Hbud Hx w1 r.
+  destruct (run_wops_app_C client op comp h1 (x :: h2) w0 Hc Hops) as (E & Hc1 & Hlen).
+  { rewrite Hb0, len_nil. lia. }
+  subst r. rewrite E. fold w1. rewrite run_wops_cons, Hx.
+  destruct (run_wops h2 (wx w1)) as [os2 w2]. cbn [fst snd].
+  split; [exact Hc1|]. split; [apply firstn_exact; exact Hlen|]. split; [apply skipn_exact; exact Hlen|reflexivity].
+Qed.
+
+(* C18: ResetOp inside a history *)
+Theorem reset_op_history h1 h2 op' state op n masks exts comp w00 :
+  (new_writer_buffer dnil state op n masks = inr w00 \/ new_writer_buffer_size dnil state op n masks = inr w00 \/
+   new_writer_size dnil state op n masks = inr w00) ->
+  n + 14 <= max_int -> op < 16 -> Forall wf_key masks -> exts_comp exts comp ->
+  Forall c06_op h1 -> 28 + 4 * ops_cost h1 <= max_int ->
+  let w0 := set_extensions exts w00 in
+  let w1 := snd (run_wops h1 w0) in
+  exists f0, new_writer_buffer dnil (w_state w1) op' (w_rawlen w1) (w_masks w1) = inr f0 /\
+    let f := flush_mode (w_noflush w1) (set_extensions (w_exts w1) f0) in
+    let r := run_wops (h1 ++ WResetOp op' :: h2) w0 in
+    let rf := run_wops h2 f in
+    dest_log (w_dest (snd r)) = dest_log (w_dest w1) ++ dest_log (w_dest (snd rf)) /\
+    firstn (length h1) (fst r) = fst (run_wops h1 w0) /\
+    skipn (S (length h1)) (fst r) = map (shift_calls (dest_ncalls (w_dest w1))) (fst rf) /\
+    snd r = redest (snd rf) (w_dest (snd r)).
+Proof.
+  intros Hn Hmax Ho Hm Hx Hops Hbud w0 w1.
+  destruct (constructors_nwb _ _ _ _ _ _ Hn Hmax) as (rawlen & Hr & Hnwb).
+  destruct (constructed_Cst state op rawlen masks exts comp w00 Hnwb Hr Ho Hm Hx) as [Hc Hb0]. fold w0 in Hc, Hb0.
+  destruct (run_split _ _ _ h1 (WResetOp op') h2 w0 (reset_op op') Hc Hb0 Hops Hbud ltac:(reflexivity))
+    as (Hc1 & Hfirst & Hskip & Hsnd). fold w1 in Hc1, Hskip, Hsnd.
+  destruct (reset_op_then_fresh op' w1 h2 (c_inv _ _ _ _ Hc1) (c_err _ _ _ _ Hc1) (c_dest _ _ _ _ Hc1))
+    as (f0 & Hf0 & Hlog & Hobs & Hw).
+  exists f0. split; [exact Hf0|]. cbv zeta. rewrite Hfirst, Hskip, Hsnd. auto.
+Qed.
+
+(* C06: ... and the segment after ResetOp satisfies the history monitor with the new opcode *)
+Theorem history_after_reset_op h1 h2 op' state op n masks exts comp w00 :
+  (new_writer_buffer dnil state op n masks = inr w00 \/ new_writer_buffer_size dnil state op n masks = inr w00 \/
+   new_writer_size dnil state op n masks = inr w00) ->
+  n + 14 <= max_int -> op < 16 -> op' < 16 -> Forall wf_key masks -> exts_comp exts comp ->
+  Forall c06_op h1 -> 28 + 4 * ops_cost h1 <= max_int ->
+  Forall c06_op h2 -> 28 + 4 * ops_cost h2 <= max_int ->
+  let w0 := set_extensions exts w00 in
+  let w1 := snd (run_wops h1 w0) in
+  let r := run_wops (h1 ++ WResetOp op' :: h2) w0 in
+  let k := dest_ncalls (w_dest w1) in
+  c06_monitor (client_side state) op' comp (w_buflen w1)
+    (steps_of h2 (map (unshift_calls k) (skipn (S (length h1)) (fst r))))
+    (drop k (dest_log (w_dest (snd r)))) = true.
+Proof.
+  intros Hn Hmax Ho Ho' Hm Hx Hops Hbud Hops2 Hbud2 w0 w1 r k.
+  destruct (constructors_nwb _ _ _ _ _ _ Hn Hmax) as (rawlen & Hr & Hnwb).
+  destruct (constructed_Cst state op rawlen masks exts comp w00 Hnwb Hr Ho Hm Hx) as [Hc Hb0]. fold w0 in Hc, Hb0.
+  destruct (run_split _ _ _ h1 (WResetOp op') h2 w0 (reset_op op') Hc Hb0 Hops Hbud ltac:(reflexivity))
+    as (Hc1 & _ & Hskip & Hsnd). fold w1 in Hc1, Hskip, Hsnd. fold r in Hskip, Hsnd.
+  rewrite Hskip, Hsnd. rewrite <- (c_client _ _ _ _ Hc1).
+  apply (segment_monitor h2 (reset_op op' w1) comp); try assumption.
+  - apply reset_op_inv, (c_inv _ _ _ _ Hc1).
+  - apply reset_op_boundary, (c_err _ _ _ _ Hc1).
+  - exact (c_dest _ _ _ _ Hc1).
+  - destruct (c_wf _ _ _ _ Hc1) as (_ & _ & Hmk). exact Hmk.
+  - exact (c_exts _ _ _ _ Hc1).
+Qed.
+
+(* SetExtensions at a message boundary inside a history *)
+Theorem set_ext_history h1 h2 xs state op n masks exts comp w00 :
+  (new_writer_buffer dnil state op n masks = inr w00 \/ new_writer_buffer_size dnil state op n masks = inr w00 \/
+   new_writer_size dnil state op n masks = inr w00) ->
+  n + 14 <= max_int -> op < 16 -> Forall wf_key masks -> exts_comp exts comp ->
+  Forall c06_op h1 -> 28 + 4 * ops_cost h1 <= max_int ->
+  let w0 := set_extensions exts w00 in
+  let w1 := snd (run_wops h1 w0) in
+  w_buf w1 = [] -> w_dirty w1 = false -> w_fseq w1 = 0 ->
+  exists f0, new_writer_buffer dnil (w_state w1) op (w_rawlen w1) (w_masks w1) = inr f0 /\
+    let f := flush_mode (w_noflush w1) (set_extensions xs f0) in
+    let r := run_wops (h1 ++ WSetExt xs :: h2) w0 in
+    let rf := run_wops h2 f in
+    dest_log (w_dest (snd r)) = dest_log (w_dest w1) ++ dest_log (w_dest (snd rf)) /\
+    firstn (length h1) (fst r) = fst (run_wops h1 w0) /\
+    skipn (S (length h1)) (fst r) = map (shift_calls (dest_ncalls (w_dest w1))) (fst rf) /\
+    snd r = redest (snd rf) (w_dest (snd r)).
+Proof.
+  intros Hn Hmax Ho Hm Hx Hops Hbud w0 w1 B1 B2 B3.
+  destruct (constructors_nwb _ _ _ _ _ _ Hn Hmax) as (rawlen & Hr & Hnwb).
+  destruct (constructed_Cst state op rawlen masks exts comp w00 Hnwb Hr Ho Hm Hx) as [Hc Hb0]. fold w0 in Hc, Hb0.
+  destruct (run_split _ _ _ h1 (WSetExt xs) h2 w0 (set_extensions xs) Hc Hb0 Hops Hbud ltac:(reflexivity))
+    as (Hc1 & Hfirst & Hskip & Hsnd). fold w1 in Hc1, Hskip, Hsnd.
+  assert (Hbd: boundary w1) by (constructor; try assumption; exact (c_err _ _ _ _ Hc1)).
+  destruct (set_ext_then_fresh xs w1 h2 (c_inv _ _ _ _ Hc1) Hbd (c_dest _ _ _ _ Hc1))
+    as (f0 & Hf0 & Hlog & Hobs & Hw).
+  rewrite (c_op _ _ _ _ Hc1) in Hf0.
+  exists f0. split; [exact Hf0|]. cbv zeta. rewrite Hfirst, Hskip, Hsnd. auto.
+Qed.
+
+Theorem history_after_set_ext h1 h2 xs comp' state op n masks exts comp w00 :
+  (new_writer_buffer dnil state op n masks = inr w00 \/ new_writer_buffer_size dnil state op n masks = inr w00 \/
+   new_writer_size dnil state op n masks = inr w00) ->
+  n + 14 <= max_int -> op < 16 -> Forall wf_key masks -> exts_comp exts comp -> exts_comp xs comp' ->
+  Forall c06_op h1 -> 28 + 4 * ops_cost h1 <= max_int ->
+  Forall c06_op h2 -> 28 + 4 * ops_cost h2 <= max_int ->
+  let w0 := set_extensions exts w00 in
+  let w1 := snd (run_wops h1 w0) in
+  w_buf w1 = [] -> w_dirty w1 = false -> w_fseq w1 = 0 ->
+  let r := run_wops (h1 ++ WSetExt xs :: h2) w0 in
+  let k := dest_ncalls (w_dest w1) in
+  c06_monitor (client_side state) op comp' (w_buflen w1)
+    (steps_of h2 (map (unshift_calls k) (skipn (S (length h1)) (fst r))))
+    (drop k (dest_log (w_dest (snd r)))) = true.
+Proof.
+  intros Hn Hmax Ho Hm Hx Hx' Hops Hbud Hops2 Hbud2 w0 w1 B1 B2 B3 r k.
+  destruct (constructors_nwb _ _ _ _ _ _ Hn Hmax) as (rawlen & Hr & Hnwb).
+  destruct (constructed_Cst state op rawlen masks exts comp w00 Hnwb Hr Ho Hm Hx) as [Hc Hb0]. fold w0 in Hc, Hb0.
+  destruct (run_split _ _ _ h1 (WSetExt xs) h2 w0 (set_extensions xs) Hc Hb0 Hops Hbud ltac:(reflexivity))
+    as (Hc1 & _ & Hskip & Hsnd). fold w1 in Hc1, Hskip, Hsnd. fold r in Hskip, Hsnd.
+  assert (Hbd: boundary w1) by (constructor; try assumption; exact (c_err _ _ _ _ Hc1)).
+  rewrite Hskip, Hsnd. rewrite <- (c_client _ _ _ _ Hc1), <- (c_op _ _ _ _ Hc1).
+  apply (segment_monitor h2 (set_extensions xs w1) comp'); try assumption.
+  - apply set_extensions_inv, (c_inv _ _ _ _ Hc1).
+  - apply set_extensions_boundary, Hbd.
+  - exact (c_dest _ _ _ _ Hc1).
+  - wsimpl. rewrite (c_op _ _ _ _ Hc1). assumption.
+  - destruct (c_wf _ _ _ _ Hc1) as (_ & _ & Hmk). exact Hmk.
+Qed.
